@@ -55,7 +55,7 @@ class C17(Check):
             'simple escapes, white space, comments at every gap; a malformed stream made by token deletion / '
             'duplication / swap / insertion; boundary texts) followed by 0-8 edit operations drawn with bias to the '
             'media types present; each history stand-alone in log mode and raise mode, and with the start text as the '
-            'media list of an @media and an @import rule. non-trivial = distinct (start text, operations) whose '
+            'media list of an @media and an @import rule, parsed with comments and with parseComments=False (the sheet tokenizer drops the comments, the token lists then hold runs of S tokens). non-trivial = distinct (start text, operations) whose '
             'start list is well-formed or whose text has at least two tokens')
 
     # ------------------------------------------------------------------------------------------
@@ -109,7 +109,7 @@ class C17(Check):
                 continue
             ops = [tuple(o) for o in i.get('ops', [])]
             for k in range(len(ops) + 1):
-                for context in ('alone', 'media', 'import'):
+                for context in ('alone', 'media', 'import', 'media-nc', 'import-nc'):
                     for raising in (False, True):
                         hist.append(G.History(context, i['start'], ops[:k], raising=raising, kind='search'))
         hist += G.boundary_histories()
